@@ -124,7 +124,8 @@ SPEC = dict(
     ctx={},
     extracts={
         # let_error
-        'le_started_init': dict(file=HE, kind='expr', sig=r'bool started_ = ([^;]*);', within=E_OP),
+        # optional group: a member WITHOUT initialiser is left nondeterministic by the harness (DESIGN 12.2)
+        'le_started_init': dict(file=HE, kind='expr', sig=r'bool started_\s*(=?[^;]*);', within=E_OP),
         'le_ctor': E(r'explicit type\(Source&& source, Func2&& func, Receiver2&& dest\)', E_OP, le_op_ctx),
         'le_dtor': E(r'~type\(\)', E_OP, le_op_ctx),
         'le_start': E(r'void start\(\) & noexcept', E_OP, le_op_ctx),
@@ -136,7 +137,7 @@ SPEC = dict(
         'le_frcv_set_done': E(r'void set_done\(\) noexcept', E_FRCV, le_frcv_ctx),
         'le_frcv_set_error': E(r'void set_error\(ErrorValue error\) noexcept', E_FRCV, le_frcv_ctx),
         # let_done
-        'ld_startedOp_init': dict(file=HD, kind='expr', sig=r'int startedOp_ = ([^;]*);', within=D_OP),
+        'ld_startedOp_init': dict(file=HD, kind='expr', sig=r'int startedOp_\s*(=?[^;]*);', within=D_OP),
         'ld_ctor': D(r'explicit type\(Source&& source, Done2&& done, Receiver2&& dest\)', D_OP, ld_op_ctx),
         'ld_dtor': D(r'~type\(\)', D_OP, ld_op_ctx),
         'ld_start': D(r'void start\(\) & noexcept', D_OP, ld_op_ctx),
@@ -149,10 +150,10 @@ SPEC = dict(
     },
     closed_world=[
         dict(file=HE, members=['started_', 'sourceOp_', 'finalOp_', 'error_'],
-             allow=[r'bool started_ = \w+;', r'manual_lifetime<source_op_t> sourceOp_;', r'final_op_union_t finalOp_;',
+             allow=[r'bool started_\s*=?[^;]*;', r'manual_lifetime<source_op_t> sourceOp_;', r'final_op_union_t finalOp_;',
                     r'sender_error_types_t<source_type, manual_lifetime_union> error_;']),
         dict(file=HD, members=['startedOp_', 'sourceOp_', 'finalOp_'],
-             allow=[r'int startedOp_ = [^;]*;', r'manual_lifetime<source_op_t> sourceOp_;', r'manual_lifetime<final_op_t> finalOp_;']),
+             allow=[r'int startedOp_\s*=?[^;]*;', r'manual_lifetime<source_op_t> sourceOp_;', r'manual_lifetime<final_op_t> finalOp_;']),
     ],
     units=[
         # let_error (3 slots: sourceOp_ | finalOp_ in one union, error_ separate; discriminator started_)
